@@ -16,6 +16,8 @@ from dataclasses import dataclass, field
 from typing import Any, Dict, List, Optional, Tuple
 
 VERIF = os.path.dirname(os.path.dirname(os.path.abspath(__file__)))
+# sensitivity / seeded-defect runs write their evidence and replays elsewhere
+OUT_DIR = os.environ.get("HCSIM_OUT", VERIF)
 PER_RUN_TIMEOUT = 60
 
 REAL_STUB_TABLE = {
@@ -282,8 +284,8 @@ def shrink(prop_id: str, params: dict, tape: List[int], rule: str, key: dict,
 
 def write_replay(prop_id: str, params: dict, seed: int, tape: List[int], labels: List[str],
                  v: Violation, digest: str, sample: Any, shrink_runs: int) -> str:
-    os.makedirs(os.path.join(VERIF, "replays"), exist_ok=True)
-    path = os.path.join(VERIF, "replays", f"{prop_id}-{seed}.json")
+    os.makedirs(os.path.join(OUT_DIR, "replays"), exist_ok=True)
+    path = os.path.join(OUT_DIR, "replays", f"{prop_id}-{seed}.json")
     with open(path, "w") as f:
         json.dump(
             {
@@ -331,7 +333,7 @@ def check(prop_id: str, tier: str, verif_seed: int, jobs_n: int, max_runs: Optio
     t0 = time.time()
     mod = load_prop(prop_id)
     plan = mod.plan(tier)
-    replay_dir = os.path.join(VERIF, "replays")
+    replay_dir = os.path.join(OUT_DIR, "replays")
     if os.path.isdir(replay_dir):
         for name in os.listdir(replay_dir):
             if name.startswith(prop_id + "-"):
@@ -520,8 +522,8 @@ def check(prop_id: str, tier: str, verif_seed: int, jobs_n: int, max_runs: Optio
         "wall_s": round(wall, 2),
         "violations": len(unknown_groups),
     }
-    os.makedirs(os.path.join(VERIF, "evidence"), exist_ok=True)
-    with open(os.path.join(VERIF, "evidence", f"{prop_id}.json"), "w") as f:
+    os.makedirs(os.path.join(OUT_DIR, "evidence"), exist_ok=True)
+    with open(os.path.join(OUT_DIR, "evidence", f"{prop_id}.json"), "w") as f:
         json.dump(evidence, f, indent=1, default=repr)
 
     if harness_errors:
